@@ -121,6 +121,11 @@ theorem bond_eq_is_spec (q : QBond) (b : MBond) : bondEq q b = true ↔ BondMatc
     · have : (r != b.inRing) = true := by simp [h]
       simp [this, h]
 
+/-- a query bond built from a bond (`QueryBond.from_bond`, any flags) matches that bond -/
+theorem fromBond_reflexive (b : MBond) (st : Option Bool) (fs fr : Bool) : bondEq (fromBond b st fs fr) b = true := by
+  unfold bondEq fromBond
+  cases fr <;> simp
+
 /-- a negated order `!x` (the regenerated `not_dict`) lists exactly the other orders among single, double, triple, aromatic -/
 theorem not_dict_is_complement :
     ∀ p ∈ notDict, ∀ o ∈ [1, 2, 3, 4], (p.2.contains o) = (some o != (replaceDict.lookup p.1)) := by decide +kernel
@@ -550,5 +555,119 @@ example : "&$*()=~%./\\^<>{}|'\"".toList.all isBad = true ∧
 
 example : smartsModel "[C;D2&h1]".toList [] = .err .incorrectSmarts :=
   amp_rejected "C;D2&h1".toList (by decide) (by decide) (by decide) []
+
+/-! ## 10. query atoms built through the API (constructors / setters with scalar, list or tuple arguments) -/
+
+/-- a scalar argument is stored as the one-element tuple — in particular `0` is a constraint, not "unspecified" -/
+theorem scalar_is_singleton (v : Int) (l : List Nat) (h : validateCount (.int v) = .ok l) :
+    l = [v.toNat] ∧ 0 ≤ v ∧ v ≤ 14 := by
+  simp only [validateCount, validateInt] at h
+  split at h
+  · cases h
+  · rename_i hc
+    cases h
+    simp only [Bool.or_eq_true, decide_eq_true_eq, not_or, Int.not_lt] at hc
+    have h1 : (countLo : Int) = 0 := by decide
+    have h2 : (countHi : Int) = 14 := by decide
+    exact ⟨rfl, by omega, by omega⟩
+
+theorem zero_is_stored : validateCount (.int 0) = .ok [0] ∧ validateRing (.int 0) = .ok [0] ∧ validateCount .none = .ok [] := by
+  decide
+
+/-- a list / tuple argument is stored as the same set of values (sorted) -/
+theorem list_is_same_set (l : List Int) (r : List Nat) (h : validateCount (.lst l) = .ok r) :
+    ∀ n : Nat, n ∈ r ↔ (n : Int) ∈ l := by
+  simp only [validateCount, validateList] at h
+  split at h
+  · cases h
+  · rename_i hc
+    split at h
+    · cases h
+    · cases h
+      intro n
+      simp only [List.mem_map, mem_sortI]
+      have hnn : ∀ x ∈ l, 0 ≤ x := by
+        intro x hx
+        cases hcx : decide (x < (countLo : Int)) with
+        | false =>
+          have h1 : (countLo : Int) = 0 := by decide
+          simp only [decide_eq_false_iff_not, Int.not_lt] at hcx
+          omega
+        | true =>
+          exfalso
+          apply hc
+          exact List.any_eq_true.mpr ⟨x, hx, by simp [hcx]⟩
+      constructor
+      · rintro ⟨x, hx, e⟩
+        have := hnn x hx
+        have : (n : Int) = x := by omega
+        rw [this]; exact hx
+      · intro hn
+        exact ⟨n, hn, by simp⟩
+
+/-- everything the constructors / setters build satisfies the well-formedness hypothesis of `eq_is_spec` -/
+theorem apiQuery_wf (kind : QKind) (c : Int) (rad : Bool) (nb hy rs ih he : RawArg) (st : Option Bool) (mk : Bool) (q : QAtom)
+    (h : apiQuery kind c rad nb hy rs ih he st mk = .ok q) : QWF q := by
+  unfold apiQuery at h
+  split at h
+  · cases h
+  · split at h
+    · cases h
+    · split at h
+      · cases h; right; simp
+      · split at h
+        · cases h
+        · split at h
+          · cases h
+          · split at h
+            · cases h
+            · rename_i rs' hrs
+              split at h
+              · cases h
+              · cases h
+                unfold QWF
+                simp only
+                cases rs with
+                | none => simp [validateRing] at hrs; subst hrs; right; simp
+                | int v => exact ring_setter_wf (.int v) rs' hrs
+                | lst l => exact ring_setter_wf (.lst l) rs' hrs
+
+/-- **api_zero_constrains**: a query built with the scalar `neighbors=0` (any class but any-metal's other fields, any other
+    arguments) matches only atoms that have no neighbours — and likewise the match of every API-built query is the documented
+    predicate (`eq_is_spec` applies because of `apiQuery_wf`). -/
+theorem api_zero_constrains (kind : QKind) (c : Int) (rad : Bool) (hy rs ih he : RawArg) (st : Option Bool) (mk : Bool)
+    (q : QAtom) (a : MAtom) (ha : AWF a)
+    (h : apiQuery kind c rad (.int 0) hy rs ih he st mk = .ok q) (hm : pyEq q a = true) : a.neighbors = 0 := by
+  have hq := apiQuery_wf _ _ _ _ _ _ _ _ _ _ q h
+  have hnb : q.neighbors = [0] := by
+    unfold apiQuery at h
+    have hz : validateCount (.int 0) = .ok [0] := by decide
+    rw [hz] at h
+    simp only at h
+    split at h
+    · cases h
+    · split at h
+      · cases h; rfl
+      · split at h
+        · cases h
+        · split at h
+          · cases h
+          · split at h
+            · cases h
+            · split at h
+              · cases h
+              · cases h; rfl
+  have hspec := (eq_is_spec q a hq ha).mp hm
+  unfold Matches at hspec
+  have hal : Allowed q.neighbors a.neighbors := by
+    cases hk : q.kind with
+    | metal => simp only [hk] at hspec; exact hspec.2.1
+    | element z i => simp only [hk] at hspec; exact hspec.2.2.2.1
+    | any => simp only [hk] at hspec; exact hspec.2.2.2.1
+    | list zs => simp only [hk] at hspec; exact hspec.2.2.2.1
+  rw [hnb] at hal
+  rcases hal with e | m
+  · cases e
+  · simpa using m
 
 end ChythonModel.Props.C08
